@@ -16,4 +16,4 @@ MIN_OBLIGATIONS = 20
 def build(src, tier):
     w = FT.world_for(src, tier)
     return [(w, [FT.t_start(), FT.t_is_alive(), FT.t_stop(), FT.t_clear(), FT.t_runner_exit('fifo'),
-                 FT.t_runner_exit('lifo')])]
+                 FT.t_runner_exit('lifo'), FT.t_runner_iteration('fifo'), FT.t_runner_iteration('lifo')])]
